@@ -102,6 +102,13 @@ class _PyValueError(Exception):
 PROGRAM_PRELUDE = "def f():\n    print('f')\n    return 7\n\n\n"
 
 
+# an opaque true / false condition for the `elif` shapes (no rule can evaluate it)
+ELIF_PRELUDE_T = "import os\nx0 = os.getcwd()\n"
+ELIF_PRELUDE_F = "import os\nx0 = os.environ.get('C15_UNSET_VARIABLE')\n"
+# constants of the three-operand BoolOp shapes: truthy / falsy, textually different from every generated operand
+C3 = {False: "3", True: "0.0"}
+
+
 def programs_for(src: str) -> dict:
     """end-to-end inputs built around one expression"""
     return {
@@ -112,6 +119,12 @@ def programs_for(src: str) -> dict:
         "ifexp": f"print(1 if {src} else 2)\n",
         "comp": f"print([i for i in (1, 2) if {src}])\n",
         "val": f"print({src})\n",
+        # shapes added by the mutation triage (design/C15-mutation.md)
+        "if1": f"if {src}:\n    print(1)\nprint(3)\n",
+        "elif_t": ELIF_PRELUDE_T + f"if x0:\n    print(0)\nelif {src}:\n    print(1)\nelse:\n    print(2)\nprint(3)\n",
+        "elif_f": ELIF_PRELUDE_F + f"if x0:\n    print(0)\nelif {src}:\n    print(1)\nelse:\n    print(2)\nprint(3)\n",
+        **{f"b3_{k}": PROGRAM_PRELUDE + "print(" + (" or " if k & 4 else " and ").join(
+            ([C3[bool(k & 2)], src] if k & 1 else [src, C3[bool(k & 2)]]) + ["f()"]) + ")\n" for k in range(8)},
     }
 
 
@@ -385,7 +398,7 @@ def _check(run: common.Run):
             # rule turns `x in [a, b]` into `x in {a, b}` (TypeError when x is unhashable)
             continue
         src = T.to_src(t)
-        for shape in ("if", "and", "comp"):
+        for shape in ("if", "and", "comp", "if1", "elif_t", "elif_f"):
             jobs.append(("format_code", programs_for(src)[shape]))
             meta.append((src, shape, "format_code"))
             terms_of_job.append(None)
@@ -550,13 +563,20 @@ RULES_FOR_SHAPE = {
     "and": ["remove_redundant_boolop_values", "simplify_boolean_expressions"],
     "or": ["remove_redundant_boolop_values", "simplify_boolean_expressions"],
     "val": ["simplify_boolean_expressions"],
+    "if1": ["remove_dead_ifs", "delete_unreachable_code", "simplify_boolean_expressions"],
+    "elif_t": ["remove_dead_ifs", "delete_unreachable_code"],
+    "elif_f": ["remove_dead_ifs", "delete_unreachable_code"],
+    **{f"b3_{k}": ["remove_redundant_boolop_values"] for k in range(8)},
 }
 
 # (shape, rule) -> shape number of ConstFoldModel.cons_code, and how to read the code off the output
 CONS_SHAPE = {("if", "remove_dead_ifs"): 0, ("while", "remove_dead_ifs"): 1, ("while", "delete_unreachable_code"): 1,
               ("ifexp", "remove_dead_ifs"): 2, ("if", "delete_unreachable_code"): 3,
               ("and", "remove_redundant_boolop_values"): 4, ("or", "remove_redundant_boolop_values"): 5,
-              ("val", "simplify_boolean_expressions"): 6}
+              ("val", "simplify_boolean_expressions"): 6,
+              ("elif_t", "remove_dead_ifs"): 7, ("elif_f", "remove_dead_ifs"): 7,
+              ("if1", "remove_dead_ifs"): 8, ("if1", "delete_unreachable_code"): 9,
+              **{(f"b3_{k}", "remove_redundant_boolop_values"): 10 + k for k in range(8)}}
 
 
 def _norm(text: str) -> str:
@@ -580,7 +600,7 @@ def observed_code(src: str, shape: str, rule: str, text: str, new: str) -> int:
 
 def _observed_code(src: str, shape: str, rule: str, text: str, new: str) -> int:
     if new == text or _norm(new) == _norm(text):
-        return 0
+        return 100 if shape.startswith("b3_") else 0
     n = _norm(new)
     if shape == "if" and rule == "remove_dead_ifs":
         return {"print(1)": 1, "print(2)": 2}.get(n, 99)
@@ -615,6 +635,26 @@ def _observed_code(src: str, shape: str, rule: str, text: str, new: str) -> int:
         return 99
     if shape == "val":
         return {"print(False)": 10, "print(True)": 11}.get(n, 99)
+    if shape == "if1":
+        return {"print(1)\nprint(3)": 1, "print(3)": 3}.get(n, 99)
+    if shape.startswith("b3_"):
+        k = int(shape[3:])
+        c = C3[bool(k & 2)]
+        ops = [ast.unparse(ast.parse(x, mode="eval").body) for x in (([c, src] if k & 1 else [src, c]) + ["f()"])]
+        arg = ast.parse(new).body[-1].value.args[0]
+        want_op = ast.Or if k & 4 else ast.And
+        kept = [ast.unparse(v) for v in arg.values] if isinstance(arg, ast.BoolOp) and isinstance(arg.op, want_op) \
+            else [ast.unparse(arg)]
+        removed = []
+        for o in ops:
+            if kept and kept[0] == o:
+                kept.pop(0)
+                removed.append(0)
+            else:
+                removed.append(1)
+        if kept:
+            return 99
+        return 100 + 4 * removed[0] + 2 * removed[1] + removed[2]
     return 99
 
 SINGLETONS = (None, True, False)
